@@ -866,6 +866,14 @@ def check_matrix(ctx, case):
         rect = len(set(len(c) for _, c in want)) == 1
         cur = {"m": m, "fresh_concat": False}
 
+        def no_default_alphabet(mx):
+            """Discrete matrix with several state alphabets and none marked as default (e.g. a standard matrix that
+            went PHYLIP -> NeXML): cells without a column definition cannot be written, by documented design."""
+            try:
+                return hasattr(mx, "state_alphabets") and mx.default_state_alphabet is None
+            except TypeError:
+                return True
+
         def mutate():
             done = []
             for op in post["ops"]:
@@ -876,7 +884,7 @@ def check_matrix(ctx, case):
                 if op["op"] == "self_concat":
                     # the matrix concatenated with itself (same object twice); concatenate() wants aligned rows and
                     # a sequence for every taxon of the namespace
-                    if not rect or len(m) != len(m.taxon_namespace) or len(want[0][1]) > 200:
+                    if not rect or len(m) != len(m.taxon_namespace) or len(want[0][1]) > 200 or no_default_alphabet(m):
                         continue
                     cur["m"] = cls.concatenate([m, m])
                     cur["fresh_concat"] = True
@@ -885,7 +893,7 @@ def check_matrix(ctx, case):
                 elif op["op"] == "self_extend":
                     # (rectangular only: in a ragged matrix the appended halves start at different positions, so the
                     # cells of one column definition would no longer sit in one column)
-                    if not rect or len(want[0][1]) > 200:
+                    if not rect or len(want[0][1]) > 200 or no_default_alphabet(m):
                         continue
                     m.extend_matrix(m)
                     for _, cells in want:
